@@ -9,8 +9,8 @@ EXTENDS World, TLC, Json
 
 CONSTANTS MaxLinks
 
-VARIABLES links, spell, dfs, phase
-vars == <<links, spell, dfs, phase>>
+VARIABLES links, spell, dfs, win, two, phase
+vars == <<links, spell, dfs, win, two, phase>>
 
 Nd(i, p, k, nm) == [id |-> i, parent |-> p, kind |-> k, name |-> nm, target |-> -3, tstyle |-> "abs"]
 Skeleton == << Nd(1, 0, "dir", "r"), Nd(2, 1, "dir", "a"), Nd(3, 2, "file", "f1"), Nd(4, 1, "dir", "b"), Nd(5, 4, "dir", "c"),
@@ -24,24 +24,33 @@ W == [nodes |-> Skeleton \o [j \in 1 .. Len(links) |-> LinkNode(j)]]
 Positions == {1, 2, 5}
 (* targets: node ids; 0 = the directory above the search root; -1 = dangling; 100 + j = link j (chains, mutual pairs) *)
 Targets == {0, 1, 2, 4, 5, 7, 9, 3, 8, -1}
-Init == links = <<>> /\ spell = "" /\ dfs = FALSE /\ phase = "links"
+Init == links = <<>> /\ spell = "" /\ dfs = FALSE /\ win = "" /\ two = FALSE /\ phase = "links"
 AddLink == /\ phase = "links" /\ Len(links) < MaxLinks
            /\ \E at \in Positions, to \in Targets \cup (IF Len(links) = 1 THEN {NS + 1} ELSE {}), st \in {"abs", "rel"} :
                 links' = Append(links, [at |-> at, to |-> to, style |-> st])
-           /\ UNCHANGED <<spell, dfs, phase>>
+           /\ UNCHANGED <<spell, dfs, win, two, phase>>
 (* a first link pointing at the second one (chain / mutual pair) *)
 AddPair == /\ phase = "links" /\ links = <<>> /\ MaxLinks >= 2
            \* (a second link outside the root, at 7, is reachable only through the first one: a genuine chain)
            /\ \E at1 \in {2, 5}, at2 \in {1, 2, 7}, to2 \in {2, 4, 7, 9, NS + 1, -1}, st \in {"abs", "rel"} :
                 links' = << [at |-> at1, to |-> NS + 2, style |-> st], [at |-> at2, to |-> to2, style |-> st] >>
-           /\ UNCHANGED <<spell, dfs, phase>>
+           /\ UNCHANGED <<spell, dfs, win, two, phase>>
+(* win: a depth window that excludes no level (one link only) - it must change nothing, wherever the link leads.            *)
+(* two: two roots, r/a and r/b, both with the option (links in both sub-trees): a real directory reached from both is still *)
+(* listed once per query.                                                                                                  *)
 Finish == /\ phase = "links" /\ links # <<>>
-          /\ spell' \in {"dot", "rel", "abs"} /\ dfs' \in BOOLEAN /\ phase' = "done" /\ UNCHANGED links
+          /\ spell' \in {"dot", "rel", "abs"} /\ dfs' \in BOOLEAN
+          /\ win' \in (IF Len(links) = 1 THEN {"", " maxdepth 9", " mindepth 1"} ELSE {""})
+          /\ two' \in (IF Len(links) = 2 /\ links[1].at = 2 /\ links[2].at = 5 /\ spell' # "dot" THEN BOOLEAN ELSE {FALSE})
+          /\ phase' = "done" /\ UNCHANGED links
 Next == AddLink \/ AddPair \/ Finish
 Spec == Init /\ [][Next]_vars
 
 RootText == CASE spell = "dot" -> "'.'" [] spell = "rel" -> "'r'" [] spell = "abs" -> "'@N1@'"
-Q(opt) == "select inode, path from " \o RootText \o opt \o (IF dfs THEN " dfs" ELSE "") \o " into list"
+RootA == IF spell = "rel" THEN "'r/a'" ELSE "'@N2@'"
+RootB == IF spell = "rel" THEN "'r/b'" ELSE "'@N4@'"
+Opts(opt) == opt \o win \o (IF dfs THEN " dfs" ELSE "")
+Q(opt) == "select inode, path from " \o (IF two THEN RootA \o Opts(opt) \o ", " \o RootB \o Opts(opt) ELSE RootText \o Opts(opt)) \o " into list"
 TargetClass(t) == CASE t = -1 -> "dangling" [] t = 0 -> "above-root" [] t = 1 -> "root" [] t \in {7, 9} -> "outside" [] t \in {3, 8} -> "file"
                     [] t > NS -> "link" [] OTHER -> "inside"
 RECURSIVE LinksClass(_)
@@ -49,7 +58,8 @@ LinksClass(j) == IF j > Len(links) THEN ""
                  ELSE (IF j > 1 THEN "+" ELSE "") \o TargetClass(links[j].to)
                       \o (IF links[j].to >= 0 /\ links[j].to <= NS /\ Below(W, links[j].to, NS + j) THEN "(ancestor)" ELSE "")
                       \o "/" \o links[j].style \o LinksClass(j + 1)
-Scenario == [prop |-> "C18", class |-> LinksClass(1) \o "/" \o spell, world |-> W, root |-> 1,
+Scenario == [prop |-> "C18", class |-> LinksClass(1) \o "/" \o spell \o (IF win # "" THEN "/window" ELSE "") \o (IF two THEN "/two-roots" ELSE ""),
+             world |-> W, root |-> 1, roots |-> IF two THEN <<2, 4>> ELSE <<1>>,
              env |-> [tz |-> "UTC", cwd |-> IF spell = "dot" THEN 1 ELSE 0],
              runs |-> << [tag |-> "follow", ncols |-> 2, timeout |-> 10, argv |-> << Q(" symlinks") >>],
                          [tag |-> "plain", ncols |-> 2, timeout |-> 10, argv |-> << Q("") >>] >>]
